@@ -377,7 +377,7 @@ func (d *decoder) parseFileIdMsg() error {
 	if !((b & mesgHeaderMask) == mesgHeaderMask) {
 		return fmt.Errorf("expected record header byte for data message, got %#x - %8b", b, b)
 	}
-	msg, err := d.parseDataMessage(b, false)
+	msg, err := d.parseDataMessage(b, (b&compressedHeaderMask) == compressedHeaderMask)
 	if err != nil {
 		return fmt.Errorf("error reading data message: %w", err)
 	}
